@@ -30,7 +30,9 @@ V3In == <<"CVSS:3.1/AV:N/AC:L/PR:N/UI:R/S:C/C:H/I:L/A:N",
           "CVSS:3.1/AV:N//AC:L/PR:N/UI:N/S:U/C:H/I:H/A:H",
           "CVSS:3.1/AV:N/AC:L/PR:N/UI:N/S:U/C:H/I:H/A:H/E:Q",
           "CVSS:3.1/E:H/RL:U",
-          "CVSS:3.1/A:H">>
+          "CVSS:3.1/A:H",
+          "CVSS:3.1/RL:U",
+          "CVSS:3.0">>
 V2In == <<"AV:N/AC:L/Au:N/C:P/I:P/A:C",
           "AV:L/AC:H/Au:M/C:N/I:N/A:P/E:POC/RL:OF/RC:UC",
           "AV:A/AC:M/Au:S/C:C/I:C/A:C/CDP:LM/TD:M/CR:H/IR:ND/AR:L",
@@ -45,7 +47,9 @@ V2In == <<"AV:N/AC:L/Au:N/C:P/I:P/A:C",
           "AV:N/AC:L/Au:N/C:P/I:P/A:C/A:C",
           "AV:N/AC:L/Au:N/C:P/I:P/A:C/XX:N",
           "CVSS:2.0/AV:N/AC:L/Au:N/C:P/I:P/A:C",
-          "A:C">>
+          "A:C",
+          "AV:N/AC:L/Au:N/C:P/I:P/A:C/E:H/RL:U/RC:ZZ",
+          "RL:U">>
 Inputs(f) == IF f = "v3" THEN V3In ELSE V2In
 
 Init == /\ fam \in {"v3", "v2"} /\ lvl \in {"B", "T", "E"}
